@@ -643,6 +643,9 @@ def _native_geometry(tier="quick", seed=0):
                     if not (0 <= int(pt.get("x")) <= w_ and 0 <= int(pt.get("y")) <= h_):
                         bad = bad or "freeform from %r after %d vertices: path point (%s, %s) outside the path box %d x %d" % (start, len(xs), pt.get("x"), pt.get("y"), w_, h_)
     rec("C17.native.freeform_is_the_bounding_box_of_its_vertices_also_when_the_builder_is_reused", bad)
+    rr_ = _replay_new_freeform({}, {})
+    evals += 160
+    rec("C17.native.freeform_degenerate_extents_and_vertices_from_any_iterable", rr_.get("detail") if rr_.get("confirmed") else None)
     return {"contract": "C17.native_geometry", "prop": "C17", "status": "ok", "obligations": obls, "paths": 0, "assumed": [], "functions": {},
             "notes": [], "solver_s": 0.0, "wall_s": _t.time() - t0,
             "bounded": {"name": "C17.native_geometry", "bound": "81 connectors (3 coordinates per end point) x 4 end points x 6 new positions; refused end-point assignments; nested groups grown by 6 members incl. zero-width / zero-height ones",
@@ -729,6 +732,20 @@ def _replay_new_freeform(model, rec):
         w, h = int(shp._element.xpath(".//a:pathLst/a:path/@w")[0]), int(shp._element.xpath(".//a:pathLst/a:path/@h")[0])
         if got != want or (w, h) != want[2:]:
             return {"confirmed": True, "witness_class": "freeform-bounds", "detail": "freeform %s %s: shape reports %s (path extents %s), its bounding box is %s" % (what, pts, got, (w, h), want)}
+    # the vertices may be handed over as any iterable, a one-shot one included (zip, generator, map): all of them are used
+    pts = [(0, 0), (30, 10), (40, 50), (-5, 20)]
+    for label, make in (("list", lambda: list(pts[1:])), ("tuple", lambda: tuple(pts[1:])), ("zip", lambda: zip([p[0] for p in pts[1:]], [p[1] for p in pts[1:]])),
+                        ("generator", lambda: (p for p in pts[1:])), ("map", lambda: map(tuple, pts[1:])), ("iter", lambda: iter(pts[1:]))):
+        slide = native.blank_slide()
+        fb = slide.shapes.build_freeform(*pts[0])
+        fb.add_line_segments(make(), close=False)
+        shp = fb.convert_to_shape(0, 0)
+        xs, ys = [p[0] for p in pts], [p[1] for p in pts]
+        want = (min(xs), min(ys), max(xs) - min(xs), max(ys) - min(ys))
+        got = (shp.left, shp.top, shp.width, shp.height)
+        if got != want or len(shp._element.xpath(".//a:pathLst/a:path/a:lnTo")) != len(pts) - 1:
+            return {"confirmed": True, "witness_class": "freeform-bounds", "detail": "vertices given as a %s: shape reports %s with %d line segments, the bounding box of the %d vertices is %s" % (
+                label, got, len(shp._element.xpath(".//a:pathLst/a:path/a:lnTo")), len(pts), want)}
     return _replay_freeform(model, rec)
 
 
